@@ -140,6 +140,9 @@ type Engine struct {
 	initGlobals    map[*ssa.Package]map[*ssa.Global]bool
 	initDeny       map[string]bool
 	detSched       bool
+	xSolver        *Solver
+	CrossChecked   int
+	CrossMismatch  int
 	preemptOK      map[*ssa.Function]bool
 	harnessFn      map[*ssa.Function]bool
 	snapshot_      *initSnapshot
@@ -609,6 +612,12 @@ func (e *Engine) strEq(a, b *bytesV) *Term {
 	if lb, ok := b.concreteLen(); ok && lb < m {
 		m = lb
 	}
+	if hi := e.rangeOf(a.n).hi; hi < uint64(m) {
+		m = int(hi)
+	}
+	if hi := e.rangeOf(b.n).hi; hi < uint64(m) {
+		m = int(hi)
+	}
 	for i := 0; i < m; i++ {
 		in := Ult(BV(64, uint64(i)), a.n)
 		r = And(r, Or(Not(in), Eq(a.arr.b[a.off+i], b.arr.b[b.off+i])))
@@ -637,9 +646,19 @@ func (e *Engine) concat(a, b *bytesV) *bytesV {
 	minA := 0
 	if l, ok := a.concreteLen(); ok {
 		capA, minA = l, l
+	} else {
+		r := e.rangeOf(a.n)
+		if r.hi < uint64(capA) {
+			capA = int(r.hi)
+		}
+		if r.lo > 0 && r.lo <= uint64(capA) {
+			minA = int(r.lo)
+		}
 	}
 	if l, ok := b.concreteLen(); ok {
 		capB = l
+	} else if hi := e.rangeOf(b.n).hi; hi < uint64(capB) {
+		capB = int(hi)
 	}
 	arr := &byteArr{b: make([]*Term, capA+capB)}
 	for i := range arr.b {
@@ -680,6 +699,13 @@ func (e *Engine) copyBytes(dst, src *bytesV) *Term {
 	}
 	if l, ok := src.concreteLen(); ok && l < m {
 		m = l
+	}
+	// the lengths' upper bounds known from the path facts bound the loop as well
+	if hi := e.rangeOf(dst.n).hi; hi < uint64(m) {
+		m = int(hi)
+	}
+	if hi := e.rangeOf(src.n).hi; hi < uint64(m) {
+		m = int(hi)
 	}
 	// read all source cells first (dst and src may alias)
 	tmp := make([]*Term, m)
@@ -1825,6 +1851,27 @@ func (e *Engine) builtin(fr *frame, b *ssa.Builtin, c *ssa.CallCommon, args []va
 			}
 		}
 		return nil
+	case "min", "max":
+		_, signed, isInt := intWidth(c.Args[0].Type())
+		res, ok := args[0].(*Term)
+		if !ok || !isInt {
+			e.end("unsupported", "builtin "+b.Name()+" on a non-integer type")
+		}
+		for _, a := range args[1:] {
+			x := a.(*Term)
+			var less *Term
+			if signed {
+				less = Slt(x, res)
+			} else {
+				less = Ult(x, res)
+			}
+			if b.Name() == "min" {
+				res = e.ite(less, x, res)
+			} else {
+				res = e.ite(less, res, x)
+			}
+		}
+		return res
 	case "recover":
 		// a run-time panic ends the path (as a finding) before any deferred call
 		// runs, so a deferred recover() never observes one
